@@ -257,7 +257,9 @@ namespace AIToolbox::MDP {
 
     template <IsExperience E>
     void ThompsonModel<E>::sync(const size_t s, const size_t a) {
-        if constexpr (IsExperienceEigen<E>) {
+        // The array expression below only exists for dense visit tables; a
+        // sparse experience samples manually.
+        if constexpr (IsExperienceEigen<E> && requires { experience_.getVisitsTable(a).row(s).array(); }) {
             sampleDirichletDistribution(
                 // Here we add the Jeffreys prior
                 //
